@@ -16,6 +16,9 @@ WEIGHTS = [("hostile", 4), ("fastlat", 3), ("plain", 1), ("multi", 1), ("event",
 SCRIPT = {"p_cancel": 0.45, "p_update": 0.2, "p_replace": 0.3, "p_second_op": 0.6, "n_orders": (2, 8), "p_any_step": 0.3}
 
 
+DIRECTED_GAVE_UP = {"mode": "live_walk", "seed": 0, "idx": 3, "cfg": {"n": 1, "async": True, "hc": False, "ext": False, "sp": 0, "lose_reply": "all"}, "len": 0, "prefix": [["place", 0], ["resp", 0], ["snap"], ["update", 0], ["resp", 0], ["resp", 1], ["resp", 1], ["resp", 0]]}
+
+
 def plan(tier, seed):
     cases = _sim.plan_profiles(tier, seed, WEIGHTS, 8000, 80000)
     for c in cases:
@@ -30,6 +33,8 @@ def plan(tier, seed):
     cases += [dict(c, mode="live_fault") for c in c12.plan(tier, seed) if c["mode"] == "live"]
     # paper trading (simulated execution on the pool of a live Flumine, completion reported by the poller)
     cases += [{"mode": "paper_walk", "seed": seed, "idx": i, "len": 40 + i % 50} for i in range(300 if tier == "quick" else 6000)]
+    # directed case for the listed finding C03-gave-up-placement-completes-a-live-order
+    cases.insert(0, dict(DIRECTED_GAVE_UP, seed=seed))
     return cases
 
 
@@ -222,6 +227,10 @@ def run(desc):
         r = c11.walk(desc)
         out = O.Out(PROPERTY)
         O.c03_lifecycle(r.tr, out, {}, exec_class="Betfair")
+        if (desc.get("cfg") or {}).get("lose_reply") == "all":
+            # (mechanism tag of the listed finding C03-gave-up-placement-completes-a-live-order)
+            for v in out.violations:
+                v["tags"] = dict(v["tags"], reply_never_arrived=True)
         out.c("live_walks")
         return out.result()
     if desc.get("mode") == "live_fault":
